@@ -1385,6 +1385,8 @@ class FuncEval(ValueFunc):
         try:
             node = parse_script(s, pos.filename)
             return node.evaluate(environment)
+        except CklRuntimeError:
+            raise
         except Exception:
             raise CklRuntimeError(
                 ValueString("ERROR"), "Cannot evaluate expression", pos
